@@ -8,14 +8,14 @@ class RedisDict(MutableMapping):
         self.redis = redis
         self.key = key
         if iterable:
-            cur = _r.SERVER.data.get(key)
+            cur = self.redis.server.data.get(key)
             h = dict(cur[1]) if cur and cur[0] == "hash" else {}
             for k, v in dict(iterable).items():
                 h[json.dumps(k)] = json.dumps(v)
-            _r.SERVER.set_value(key, "hash", h)
+            self.redis.server.set_value(key, "hash", h)
 
     def _h(self):
-        cur = _r.SERVER.read(self.redis.id, self.key)
+        cur = self.redis.server.read(self.redis.id, self.key)
         return cur[1] if cur and cur[0] == "hash" else {}
 
     def __getitem__(self, k):
@@ -26,19 +26,19 @@ class RedisDict(MutableMapping):
         return json.loads(h[jk])
 
     def __setitem__(self, k, v):
-        cur = _r.SERVER.data.get(self.key)
+        cur = self.redis.server.data.get(self.key)
         h = dict(cur[1]) if cur and cur[0] == "hash" else {}
         h[json.dumps(k)] = json.dumps(v)
-        _r.SERVER.set_value(self.key, "hash", h)
+        self.redis.server.set_value(self.key, "hash", h)
 
     def __delitem__(self, k):
-        cur = _r.SERVER.data.get(self.key)
+        cur = self.redis.server.data.get(self.key)
         h = dict(cur[1]) if cur and cur[0] == "hash" else {}
         jk = json.dumps(k)
         if jk not in h:
             raise KeyError(k)
         del h[jk]
-        _r.SERVER.set_value(self.key, "hash", h)
+        self.redis.server.set_value(self.key, "hash", h)
 
     def __iter__(self):
         return iter([json.loads(k) for k in self._h()])
@@ -54,13 +54,13 @@ class RedisList(MutableSequence):
         self.redis = redis
         self.key = key
         if iterable:
-            cur = _r.SERVER.data.get(key)
+            cur = self.redis.server.data.get(key)
             l = list(cur[1]) if cur and cur[0] == "list" else []
             l.extend(json.dumps(v) for v in iterable)
-            _r.SERVER.set_value(key, "list", l)
+            self.redis.server.set_value(key, "list", l)
 
     def _l(self):
-        cur = _r.SERVER.read(self.redis.id, self.key)
+        cur = self.redis.server.read(self.redis.id, self.key)
         return cur[1] if cur and cur[0] == "list" else []
 
     def __getitem__(self, i):
@@ -71,20 +71,20 @@ class RedisList(MutableSequence):
 
     def __setitem__(self, i, v):
         l = list(self._l()); l[i] = json.dumps(v)
-        _r.SERVER.set_value(self.key, "list", l)
+        self.redis.server.set_value(self.key, "list", l)
 
     def __delitem__(self, i):
         l = list(self._l()); del l[i]
-        _r.SERVER.set_value(self.key, "list", l)
+        self.redis.server.set_value(self.key, "list", l)
 
     def __len__(self):
         return len(self._l())
 
     def insert(self, i, v):
-        cur = _r.SERVER.data.get(self.key)
+        cur = self.redis.server.data.get(self.key)
         l = list(cur[1]) if cur and cur[0] == "list" else []
         l.insert(i, json.dumps(v))
-        _r.SERVER.set_value(self.key, "list", l)
+        self.redis.server.set_value(self.key, "list", l)
 
     def __repr__(self):
         return "RedisList%r" % (list(self),)
